@@ -86,13 +86,16 @@ theorem nameLoop_ok (fuel : Nat) (inp acc orig : List Nat) (hf : inp.length < fu
     unfold nameLoop
     split
     · exact ⟨_, _, rfl, Nat.le_refl _⟩
-    · rename_i c rest h
-      have hl := nameChar_length h
+    · rename_i c0 rest0
       split
-      · exact ⟨_, _, rfl, by omega⟩
+      · exact ⟨_, _, rfl, by simp only [List.length_cons] at hi; omega⟩
       · split
-        · exact ih rest _ (by omega) (by omega)
         · exact ⟨_, _, rfl, Nat.le_refl _⟩
+        · rename_i c rest h
+          have hl := nameChar_length h
+          split
+          · exact ih rest _ (by omega) (by omega)
+          · exact ⟨_, _, rfl, Nat.le_refl _⟩
 
 theorem tryConsumeName_ok (inp : List Nat) :
     ∃ r rest, tryConsumeName inp = .ok (r, rest) ∧ rest.length ≤ inp.length := by
